@@ -98,13 +98,20 @@ func (s bitmap32) And(provider Provider[uint32]) {
 		s.bitmap.And(typedProvider.bitmap)
 
 	case Duplex[uint32]:
+		// Collect first: removing from the bitmap while iterating it skips elements
+		var absent []uint32
+
 		s.Each(func(nextValue uint32) bool {
 			if !typedProvider.Contains(nextValue) {
-				s.Remove(nextValue)
+				absent = append(absent, nextValue)
 			}
 
 			return true
 		})
+
+		for _, value := range absent {
+			s.Remove(value)
+		}
 	}
 }
 
@@ -137,12 +144,19 @@ func (s bitmap32) AndNot(provider Provider[uint32]) {
 		s.bitmap.AndNot(typedProvider.bitmap)
 
 	case Duplex[uint32]:
+		// Collect first: removing from the bitmap while iterating it skips elements
+		var present []uint32
+
 		s.Each(func(nextValue uint32) bool {
 			if typedProvider.Contains(nextValue) {
-				s.Remove(nextValue)
+				present = append(present, nextValue)
 			}
 
 			return true
 		})
+
+		for _, value := range present {
+			s.Remove(value)
+		}
 	}
 }
